@@ -239,9 +239,13 @@ theorem sendRawString_eq (c : Conn) (it : Item) :
     same_core[c, connOpenStream c] ∧ same_h[c, connOpenStream c] ∧ same_t[c, connOpenStream c] := by
   simp [connOpenStream]
 
+theorem negotiationSuccess_eq (c : Conn) : negotiationSuccess c =
+    if (notify { c with negotiated := true } .connect).sendOnConnect then
+      sendStanza (notify { c with negotiated := true } .connect) (.user (b "presence") (some (b "oc"))) .user
+    else notify { c with negotiated := true } .connect := rfl
+
 @[simp] theorem negotiationSuccess_frame (c : Conn) :
-    same_core[c, negotiationSuccess c] ∧ same_h[c, negotiationSuccess c] ∧ same_t[c, negotiationSuccess c] ∧
-    (negotiationSuccess c).queue = c.queue := by
-  simp [negotiationSuccess]
+    same_core[c, negotiationSuccess c] ∧ same_h[c, negotiationSuccess c] ∧ same_t[c, negotiationSuccess c] := by
+  rw [negotiationSuccess_eq]; split <;> simp
 
 end Strophe.Lemmas.ConnC02
